@@ -109,6 +109,24 @@ var c11Corpus = []c11CorpusEntry{
 	{"Fetch", "", "* 4294967295 FETCH (UID 4294967295 MODSEQ (18446744073709551615))\r\n* 4294967295 FETCH (UID 4294967295)\r\nT1 OK done\r\n", ""},
 	{"Fetch", "", "* 1 FETCH (INTERNALDATE \"1-Jan-0001 00:00:00 +0000\")\r\nT1 OK done\r\n", ""},
 	{"Fetch", "", "* 1 FETCH (BODYSTRUCTURE (\"a\" \"b\" (\"\" \"k\" \"v\") NIL NIL NIL -1))\r\nT1 OK done\r\n", ""},
+	{"Fetch", "", "* 1 FETCH (BODYSTRUCTURE (\"application\" \"octet-stream\" NIL NIL NIL \"base64\" -))\r\nT1 OK done\r\n", ""},
+	{"Fetch", "", "* 1 FETCH (BODY ((\"a\" \"b\" NIL NIL NIL \"7bit\" -)(\"text\" \"plain\" NIL NIL NIL \"7bit\" - 1) \"mixed\"))\r\nT1 OK done\r\n", ""},
+	{"Fetch", "", "* 1 FETCH (BODYSTRUCTURE (\"application\" \"octet-stream\" NIL NIL NIL \"base64\" -4294967296))\r\nT1 OK done\r\n", ""},
+	{"Fetch", "", "* 1 FETCH (BODY ((\"a\" \"b\" NIL NIL NIL \"7bit\" -4294967296)(\"text\" \"plain\" NIL NIL NIL \"7bit\" -4294967296 1) \"mixed\"))\r\nT1 OK done\r\n", ""},
+	{"Fetch", "", "* 1 FETCH (BODYSTRUCTURE (\"application\" \"octet-stream\" NIL NIL NIL \"base64\" -99999999999))\r\nT1 OK done\r\n", ""},
+	{"Fetch", "", "* 1 FETCH (BODY ((\"a\" \"b\" NIL NIL NIL \"7bit\" -99999999999)(\"text\" \"plain\" NIL NIL NIL \"7bit\" -99999999999 1) \"mixed\"))\r\nT1 OK done\r\n", ""},
+	{"Fetch", "", "* 1 FETCH (BODYSTRUCTURE (\"application\" \"octet-stream\" NIL NIL NIL \"base64\" -0))\r\nT1 OK done\r\n", ""},
+	{"Fetch", "", "* 1 FETCH (BODY ((\"a\" \"b\" NIL NIL NIL \"7bit\" -0)(\"text\" \"plain\" NIL NIL NIL \"7bit\" -0 1) \"mixed\"))\r\nT1 OK done\r\n", ""},
+	{"Fetch", "", "* 1 FETCH (BODYSTRUCTURE (\"application\" \"octet-stream\" NIL NIL NIL \"base64\" -2))\r\nT1 OK done\r\n", ""},
+	{"Fetch", "", "* 1 FETCH (BODY ((\"a\" \"b\" NIL NIL NIL \"7bit\" -2)(\"text\" \"plain\" NIL NIL NIL \"7bit\" -2 1) \"mixed\"))\r\nT1 OK done\r\n", ""},
+	{"Fetch", "", "* 1 FETCH (BODYSTRUCTURE (\"application\" \"octet-stream\" NIL NIL NIL \"base64\" --1))\r\nT1 OK done\r\n", ""},
+	{"Fetch", "", "* 1 FETCH (BODY ((\"a\" \"b\" NIL NIL NIL \"7bit\" --1)(\"text\" \"plain\" NIL NIL NIL \"7bit\" --1 1) \"mixed\"))\r\nT1 OK done\r\n", ""},
+	{"Fetch", "", "* 1 FETCH (BODYSTRUCTURE (\"application\" \"octet-stream\" NIL NIL NIL \"base64\" -1x))\r\nT1 OK done\r\n", ""},
+	{"Fetch", "", "* 1 FETCH (BODY ((\"a\" \"b\" NIL NIL NIL \"7bit\" -1x)(\"text\" \"plain\" NIL NIL NIL \"7bit\" -1x 1) \"mixed\"))\r\nT1 OK done\r\n", ""},
+	{"Fetch", "", "* 1 FETCH (BODYSTRUCTURE (\"application\" \"octet-stream\" NIL NIL NIL \"base64\" - 1))\r\nT1 OK done\r\n", ""},
+	{"Fetch", "", "* 1 FETCH (BODY ((\"a\" \"b\" NIL NIL NIL \"7bit\" - 1)(\"text\" \"plain\" NIL NIL NIL \"7bit\" - 1 1) \"mixed\"))\r\nT1 OK done\r\n", ""},
+	{"Fetch", "", "* 1 FETCH (BODYSTRUCTURE (\"application\" \"octet-stream\" NIL NIL NIL \"base64\" -4294967295))\r\nT1 OK done\r\n", ""},
+	{"Fetch", "", "* 1 FETCH (BODY ((\"a\" \"b\" NIL NIL NIL \"7bit\" -4294967295)(\"text\" \"plain\" NIL NIL NIL \"7bit\" -4294967295 1) \"mixed\"))\r\nT1 OK done\r\n", ""},
 	{"Fetch", "", "* 1 FETCH (BODYSTRUCTURE (\"a\" \"b\" (\"k\") NIL NIL NIL 1))\r\nT1 OK done\r\n", ""},
 	{"Select", "INBOX", "* 172 EXISTS\r\n* 1 RECENT\r\n* OK [UNSEEN 12] x\r\n* OK [UIDVALIDITY 3857529045] UIDs valid\r\n* OK [UIDNEXT 4392] Predicted next UID\r\n* FLAGS (\\Answered \\Flagged \\Deleted \\Seen \\Draft)\r\n* OK [PERMANENTFLAGS (\\Deleted \\Seen \\*)] Limited\r\n* OK [HIGHESTMODSEQ 715194045007]\r\n* LIST () \"/\" INBOX\r\nT1 OK [READ-WRITE] SELECT completed\r\n* 173 EXISTS\r\n* FLAGS (a)\r\n", ""},
 	{"List", "", "* LIST (\\Noselect) \"/\" \"\"\r\n* LIST () NIL inbox\r\n* LIST (\\Marked \\HasChildren) \".\" \"a&AOk-b\" (\"CHILDINFO\" (\"SUBSCRIBED\") \"OLDNAME\" (\"old\"))\r\nT1 OK done\r\n", ""},
@@ -147,6 +165,21 @@ func c11Cases(h *H) []c11Case {
 	var cases []c11Case
 	for i, c := range c11Corpus {
 		cases = append(cases, c11Case{cmd: c11Cmd{Kind: c.kind, Param: c.param}, stream: []byte(c.stream), origin: fmt.Sprintf("corpus#%d", i), reject: c.reject})
+	}
+	// LIST-STATUS: STATUS before any LIST, two in a row, for another mailbox, after the last LIST,
+	// malformed; with and without the tagged completion
+	for i, st := range []string{
+		"* STATUS x (MESSAGES 1)\r\n* LIST () \"/\" x\r\n",
+		"* LIST () \"/\" x\r\n* STATUS x (MESSAGES 1 UNSEEN 0)\r\n* STATUS x (MESSAGES 2)\r\n",
+		"* LIST () \"/\" x\r\n* STATUS y (MESSAGES 1)\r\n* LIST () \"/\" y\r\n* STATUS y (MESSAGES 3)\r\n",
+		"* STATUS x (MESSAGES 1)\r\n* STATUS x (MESSAGES 1)\r\n",
+		"* LIST () \"/\" INBOX\r\n* STATUS inbox (UNSEEN 4294967295)\r\n",
+		"* LIST (\\Noselect) NIL \"\"\r\n* STATUS \"\" ()\r\n",
+		"* STATUS x (MESSAGES\r\n", "* STATUS\r\n* LIST () \"/\" x\r\n", "* LIST () \"/\" x\r\n* STATUS x (MESSAGES 0 X (1 (2)))\r\n",
+	} {
+		for _, end := range []string{"T1 OK done\r\n", "T1 NO no\r\n", ""} {
+			cases = append(cases, c11Case{cmd: c11Cmd{Kind: "ListStatus"}, stream: []byte(st + end), origin: fmt.Sprintf("corpus#list-status-%d", i), noCorr: true})
+		}
 	}
 	g := &c11Gen{r: h.Rng}
 	// every command kind sees a plain completion and a cut-off one
